@@ -198,3 +198,16 @@ Proof.
   unfold request_of. destruct (ep_uri_ok ep); [|discriminate].
   intros H H'. injection H as <-. injection H' as <-. reflexivity.
 Qed.
+
+Lemma revoke_pairs c t h :
+  lookup (s2b "token") (lib_pairs c (KRevoke t h)) = Some t /\
+  lookup (s2b "token_type_hint") (lib_pairs c (KRevoke t h)) = h /\
+  count_name (s2b "token") (lib_pairs c (KRevoke t h)) = 1.
+Proof.
+  split; [|split].
+  - destruct c as [a id sec]. unfold lib_pairs, cred_pairs, use_basic. cbn.
+    destruct h, a, sec; reflexivity.
+  - exact (lookup_hint c (KRevoke t h)).
+  - destruct c as [a id sec]. unfold lib_pairs, cred_pairs, use_basic. cbn.
+    destruct h, a, sec; reflexivity.
+Qed.
